@@ -14,6 +14,8 @@ package main
 import (
 	"bufio"
 	"bytes"
+	"os/exec"
+	"path/filepath"
 	"encoding/json"
 	"errors"
 	"fmt"
@@ -39,8 +41,10 @@ type c13Case struct {
 	Out  string  `json:"out"`            // plain | bufio | rec | bytesbuf
 	Fail int     `json:"fail"`           // -1: never; k: the underlying stdout accepts k bytes, then fails
 	Ops  []c13Op `json:"ops"`
-	Raw  string  `json:"raw,omitempty"`  // a fixed program instead of Ops (F25 witness)
+	Raw  string  `json:"raw,omitempty"`  // a fixed program instead of Ops (F25 witness; binary stream)
 	Want string  `json:"want,omitempty"` // its expected stdout
+	Bin  string  `json:"bin,omitempty"`  // binary stream: what the goawk PROCESS gets as fd 1: ok | rofile | devfull | closedpipe
+	Exit int     `json:"exit,omitempty"` // binary stream: the status the program asks for
 }
 
 const c13Old3 = "old3\n"
@@ -51,6 +55,14 @@ func c13Real(d, sym string) string {
 		return sym
 	case strings.HasPrefix(sym, "sink"):
 		return fmt.Sprintf("cat >> %s/%s.out; exit %c", d, sym, sym[4])
+	case strings.HasPrefix(sym, "quit"): // reads one line, then exits with the digit: stops reading early
+		return fmt.Sprintf("read l; echo \"$l\" >> %s/%s.out; exit %c", d, sym, sym[4])
+	case strings.HasPrefix(sym, "slow"): // the same, but lingers before it exits
+		return fmt.Sprintf("read l; echo \"$l\" >> %s/%s.out; sleep 0.4; exit %c", d, sym, sym[4])
+	case strings.HasPrefix(sym, "head"):
+		return fmt.Sprintf("head -n 1 >> %s/%s.out", d, sym)
+	case sym == "nap":
+		return "sleep 0.25"
 	case strings.HasPrefix(sym, "echo"):
 		return "tac | tac #" + sym
 	case strings.HasPrefix(sym, "snap_"):
@@ -206,7 +218,130 @@ type c13Obs struct {
 	FailSeq int // sequence number at the first underlying write failure (-1: none)
 }
 
+// ---- the goawk binary (the binary half of "a failing write to standard output makes the run fail") -----------------------
+
+var c13Goawk string
+
+func c13BuildGoawk(dir string) error {
+	repo := os.Getenv("VERIF_REPO")
+	if repo == "" {
+		repo = "/repo"
+	}
+	c13Goawk = filepath.Join(dir, "goawk")
+	cmd := exec.Command("go", "build", "-o", c13Goawk, ".")
+	cmd.Dir = repo
+	cmd.Env = append(os.Environ(), "GOFLAGS=-mod=mod", "GOPROXY=off", "GOSUMDB=off", "GOTOOLCHAIN=local", "CGO_ENABLED=0")
+	out, err := cmd.CombinedOutput()
+	if err != nil {
+		return fmt.Errorf("go build %s: %v\n%s", repo, err, out)
+	}
+	return nil
+}
+
+func c13RunBin(cs *c13Case) (obs c13Obs) {
+	d, err := os.MkdirTemp("", "c13b_")
+	if err != nil {
+		panic(err)
+	}
+	defer os.RemoveAll(d)
+	obs.Src = cs.Raw
+	obs.FailSeq = -1
+	var f *os.File
+	switch cs.Bin {
+	case "ok":
+		f, err = os.Create(d + "/out.txt")
+	case "rofile": // a regular file opened read-only as fd 1: every write fails with EBADF
+		os.WriteFile(d+"/ro.txt", []byte("read-only target\n"), 0o644)
+		f, err = os.Open(d + "/ro.txt")
+	case "devfull":
+		f, err = os.OpenFile("/dev/full", os.O_WRONLY, 0)
+	case "closedpipe":
+		var r *os.File
+		r, f, err = os.Pipe()
+		if err == nil {
+			r.Close()
+		}
+	}
+	if err != nil {
+		obs.Panic = "harness: cannot set up stdout target: " + err.Error()
+		return obs
+	}
+	var errb bytes.Buffer
+	cmd := exec.Command(c13Goawk, cs.Raw)
+	cmd.Stdout = f
+	cmd.Stderr = &errb
+	runErr := cmd.Run()
+	f.Close()
+	obs.Stderr = errb.String()
+	if cmd.ProcessState != nil {
+		obs.Status = cmd.ProcessState.ExitCode() // -1 when killed by a signal (SIGPIPE)
+	} else {
+		obs.Panic = fmt.Sprint("harness: could not run goawk: ", runErr)
+	}
+	if cs.Bin == "ok" {
+		b, _ := os.ReadFile(d + "/out.txt")
+		obs.Stdout = string(b)
+	}
+	return obs
+}
+
+func c13BinCases() []c13Case {
+	lines := func(n int) string { return strings.Repeat("0123456789\n", n) }
+	loop := func(n int, tail string) string {
+		return fmt.Sprintf(`BEGIN { for (i = 0; i < %d; i++) print "0123456789"%s }`, n, tail)
+	}
+	type pr struct {
+		src, want string
+		exit      int
+	}
+	progs := []pr{
+		{`BEGIN { print "hello" }`, "hello\n", 0},
+		{`BEGIN { print "hello"; exit 0 }`, "hello\n", 0},
+		{`BEGIN { print "hello"; exit 3 }`, "hello\n", 3},
+		{`BEGIN { printf "x" } END { print "y" }`, "xy\n", 0},
+		{loop(1000, ""), lines(1000), 0},            // 11 000 bytes: one buffer-load, the only write is the final flush
+		{loop(5957, "; exit 3"), lines(5957), 3},    // 65 527 bytes: just below the 64 KiB buffer
+		{loop(5958, ""), lines(5958), 0},            // 65 538 bytes: the last 2 bytes are left for the final flush
+		{loop(7000, "; exit 3"), lines(7000), 3},    // > 64 KiB: a print statement itself sees the failure
+		{loop(20000, ""), lines(20000), 0},
+	}
+	targets := []string{"ok", "rofile", "closedpipe"}
+	if _, err := os.Stat("/dev/full"); err == nil {
+		targets = append(targets, "devfull")
+	}
+	var res []c13Case
+	for _, p := range progs {
+		for _, t := range targets {
+			res = append(res, c13Case{Out: "binary", Fail: -1, Raw: p.src, Want: p.want, Bin: t, Exit: p.exit})
+		}
+	}
+	return res
+}
+
+func c13BinOracle(cs *c13Case, obs *c13Obs) (bad []c13Verdict) {
+	if obs.Panic != "" {
+		return []c13Verdict{{What: obs.Panic}}
+	}
+	if cs.Bin == "ok" {
+		if obs.Status != cs.Exit || obs.Stdout != cs.Want {
+			bad = append(bad, c13Verdict{What: "goawk binary with a working standard output: wrong status or output",
+				Got: fmt.Sprintf("status %d, %d bytes", obs.Status, len(obs.Stdout)), Want: fmt.Sprintf("status %d, %d bytes", cs.Exit, len(cs.Want))})
+		}
+		return bad
+	}
+	if obs.Status == 0 {
+		bad = append(bad, c13Verdict{What: fmt.Sprintf("goawk binary: every write to standard output fails (%s) but the process exited 0 — the output (%d bytes) is lost silently", cs.Bin, len(cs.Want)),
+			Got: fmt.Sprintf("status 0, stderr %q", obs.Stderr), Want: "non-zero exit status and a message"})
+	} else if cs.Bin != "closedpipe" && strings.TrimSpace(obs.Stderr) == "" {
+		bad = append(bad, c13Verdict{What: "goawk binary: a failing standard output ends the process without any message", Got: fmt.Sprintf("status %d, stderr empty", obs.Status), Want: "a message on stderr"})
+	}
+	return bad
+}
+
 func c13Run(cs *c13Case) (obs c13Obs) {
+	if cs.Bin != "" {
+		return c13RunBin(cs)
+	}
 	d, err := os.MkdirTemp("", "c13_")
 	if err != nil {
 		panic(err)
@@ -295,9 +430,14 @@ type c13Spec struct {
 	CmdOut   map[string]string // sink*.out and snap_*.out contents
 	Rets     []string          // per executed op: "" (not checked) or the canonical return
 	Outcome  string
+	EarlyExit bool // the history uses a command that stops reading early (oracle only: EPIPE timing is not modelled)
 	F25Risk  bool // a |-command that writes to the shared stdout was alive while the program wrote to stdout
 	EchoLive int  // max number of stdout-writing commands alive at once
 	Executed int
+}
+
+func c13Early(n string) bool {
+	return strings.HasPrefix(n, "quit") || strings.HasPrefix(n, "slow") || strings.HasPrefix(n, "head")
 }
 
 func c13Line(s string) (string, string) {
@@ -335,6 +475,11 @@ func c13EvalSpec(cs *c13Case) c13Spec {
 				sp.CmdOut[n+".out"] += s.log
 				return "n" + n[4:5]
 			}
+			if c13Early(n) { // consumes its first line only; close() still reports its exit status
+				l, _ := c13Line(s.log)
+				sp.CmdOut[n+".out"] += l + "\n"
+				return "n" + n[4:5]
+			}
 			sp.Stdout += s.log // echo: copies its input to the shared stdout when it sees EOF
 			return "n0"
 		}
@@ -361,6 +506,9 @@ loop:
 			}
 			switch {
 			case op.K == "pipe":
+				if c13Early(op.N) {
+					sp.EarlyExit = true
+				}
 				open[op.N] = &c13SpecStream{kind: "cmd", log: op.C}
 				order = append(order, op.N)
 				if e := echoAlive(); e > sp.EchoLive {
@@ -395,6 +543,8 @@ loop:
 				ret = "n0"
 			case strings.HasPrefix(op.N, "rc"):
 				ret = "n" + op.N[2:3]
+			case op.N == "nap":
+				ret = "n0"
 			}
 		case "gf":
 			s, ok := open[op.N]
@@ -476,6 +626,9 @@ func c13RealRets(cs *c13Case, obs *c13Obs) []string {
 type c13Verdict struct{ What, Finding, Got, Want string }
 
 func c13Oracle(cs *c13Case, obs *c13Obs) (bad []c13Verdict, sp c13Spec) {
+	if cs.Bin != "" {
+		return c13BinOracle(cs, obs), sp
+	}
 	if cs.Raw != "" {
 		if obs.Stdout != cs.Want || obs.Panic != "" {
 			bad = append(bad, c13Verdict{What: "program output written while a `print | cmd` child is alive is lost or torn (Config.Output shared, unsynchronised, with os/exec's copy goroutine)",
@@ -486,6 +639,10 @@ func c13Oracle(cs *c13Case, obs *c13Obs) (bad []c13Verdict, sp c13Spec) {
 	sp = c13EvalSpec(cs)
 	if obs.Panic != "" {
 		return []c13Verdict{{What: "the interpreter panicked: " + obs.Panic}}, sp
+	}
+	if sp.EarlyExit && strings.Contains(obs.Err, "broken pipe") {
+		// a print itself hit the dead command (only possible when the machine is very slow): says nothing about close()
+		return nil, sp
 	}
 	f25 := ""
 	if sp.F25Risk && (cs.Out == "bufio" || cs.Out == "bytesbuf") {
@@ -543,6 +700,9 @@ func c13Oracle(cs *c13Case, obs *c13Obs) (bad []c13Verdict, sp c13Spec) {
 		}
 	}
 	for n, want := range sp.CmdOut {
+		if c13Early(n) && obs.Files[n] != want {
+			bad = append(bad, c13Verdict{What: "early-exit command " + n + " did not receive its first line exactly once", Got: fmt.Sprintf("%q", obs.Files[n]), Want: fmt.Sprintf("%q", want)})
+		}
 		if strings.HasPrefix(n, "sink") && obs.Files[n] != want {
 			bad = append(bad, c13Verdict{What: "command " + n + " did not receive exactly the bytes written to it", Got: fmt.Sprintf("%q", obs.Files[n]), Want: fmt.Sprintf("%q", want)})
 		}
@@ -713,6 +873,23 @@ func c13Corpus() []c13Case {
 			res = append(res, c13Case{Out: out, Fail: -1, Ops: ops})
 		}
 	}
+	// close() of an output pipe reports the command's exit status also when the command stopped reading early and data is still
+	// buffered for it (the final flush of the pipe then fails with EPIPE)
+	big := strings.Repeat("0123456789abcde\n", 4400) // 70 400 bytes: more than the 64 KiB stream buffer and the pipe
+	mid := strings.Repeat("0123456789abcde\n", 3700) // 59 200 bytes: stays buffered until close
+	early := [][]c13Op{
+		h(W("pipe", "quit3a", "one\n"), X("ff", "quit3a"), X("sys", "nap"), W("pipe", "quit3a", "two\n"), X("close", "quit3a"), P("z\n")),
+		h(W("pipe", "head0b", "first\n"), X("ff", "head0b"), X("sys", "nap"), W("pipe", "head0b", "second\n"), X("close", "head0b")),
+		h(W("pipe", "quit3a", "one\n"), X("ff", "quit3a"), X("sys", "nap"), W("pipe", "quit3a", mid), X("close", "quit3a")),
+		h(W("pipe", "slow3c", "one\n"), W("pipe", "slow3c", big), X("close", "slow3c"), P("z\n")),
+		h(W("pipe", "quit3a", "one\n"), X("ff", "quit3a"), X("sys", "nap"), W("pipe", "quit3a", "two\n")), // left to closeAll
+		h(W("pipe", "quit0d", "only\n"), X("close", "quit0d")),
+	}
+	for _, ops := range early {
+		for _, out := range []string{"plain", "bufio"} {
+			res = append(res, c13Case{Out: out, Fail: -1, Ops: ops})
+		}
+	}
 	// F17-api witness: the only failing write is the final flush of a buffered Config.Output
 	res = append(res, c13Case{Out: "bufio", Fail: 0, Ops: h(P("x\n"))})
 	res = append(res, c13Case{Out: "rec", Fail: 1, Ops: h(P("x\n"))})
@@ -832,6 +1009,16 @@ func runC13(c *vh.Ctx) {
 	} else {
 		cases = c13Corpus()
 		cases = append(cases, c13F25Witness())
+		if bd, err := os.MkdirTemp("", "c13bin_"); err == nil {
+			defer os.RemoveAll(bd)
+			if err := c13BuildGoawk(bd); err != nil {
+				c.Fail(vh.Failure{Kind: "oracle", What: "the goawk binary does not build: " + err.Error(), Case: "go build"})
+			} else {
+				bin := c13BinCases()
+				cases = append(cases, bin...)
+				c.Note(fmt.Sprintf("%d runs of the goawk binary (built from the tree under test) with a working / read-only / full / closed standard output", len(bin)))
+			}
+		}
 		nCorpus := len(cases)
 		for i, n := 0, c.N(300, 4000); i < n; i++ {
 			cases = append(cases, c13Random(c, true))
@@ -857,9 +1044,16 @@ func runC13(c *vh.Ctx) {
 			"writes into a bufio.Writer are not exercised (they would make the check flaky)")
 	}
 
+	if c.ReplayFile != "" && len(cases) == 1 && cases[0].Bin != "" {
+		bd, _ := os.MkdirTemp("", "c13bin_")
+		defer os.RemoveAll(bd)
+		if err := c13BuildGoawk(bd); err != nil {
+			panic(err)
+		}
+	}
 	// F25: histories in which a stdout-writing command is alive while the program prints are run with the synchronised plain writer only
 	for i := range cases {
-		if cases[i].Raw == "" && cases[i].Out != "plain" && c13EvalSpec(&cases[i]).F25Risk {
+		if cases[i].Raw == "" && cases[i].Bin == "" && cases[i].Out != "plain" && c13EvalSpec(&cases[i]).F25Risk {
 			cases[i].Out = "plain"
 		}
 	}
@@ -885,8 +1079,8 @@ func runC13(c *vh.Ctx) {
 		var reqs []string
 		var idx []int
 		for i := range cases {
-			if cases[i].Raw != "" {
-				continue
+			if cases[i].Raw != "" || cases[i].Bin != "" || c13EvalSpec(&cases[i]).EarlyExit {
+				continue // fixed programs, the binary, and early-exit commands (EPIPE timing) are judged by the oracle only
 			}
 			reqs = append(reqs, c13LeanReq(&cases[i]))
 			idx = append(idx, i)
@@ -951,6 +1145,9 @@ func runC13(c *vh.Ctx) {
 		c.Eval(string(key), len(dests) >= 2 || reopen || cs.Raw != "")
 		c.OracleCase()
 		c.Hit("output:" + cs.Out)
+		if cs.Bin != "" {
+			c.Hit("binary-stdout:" + cs.Bin)
+		}
 		if cs.Fail >= 0 {
 			c.Hit("fault:injected")
 		} else {
